@@ -323,6 +323,21 @@ func childC15Dec(args []string) {
 			}
 		}
 	}()
+	// bounded-space watchdog: inputs are at most a few hundred bytes and their declared lengths are bounded by the input
+	// size, so a decoder that holds more than 1.5 GiB has allocated from a length or index field without bound
+	go func() {
+		for {
+			time.Sleep(20 * time.Millisecond)
+			if b, err := os.ReadFile("/proc/self/statm"); err == nil {
+				var size, rss int64
+				fmt.Sscanf(string(b), "%d %d", &size, &rss)
+				if rss*int64(os.Getpagesize()) > 3<<29 {
+					fmt.Fprintf(os.Stderr, "DECODE-WATCHDOG: resident set %d MiB while decoding an input of a few hundred bytes\n", rss*int64(os.Getpagesize())>>20)
+					os.Exit(98)
+				}
+			}
+		}
+	}()
 	idx := 0
 	mine := func(id string) bool {
 		idx++
@@ -515,6 +530,10 @@ func runC15(c *core.Ctx) {
 				if 8+m+n <= len(cur) {
 					id, in = string(cur[8:8+m]), cur[8+m:8+m+n]
 				}
+			}
+			if x.r.Exit == 98 {
+				c.Violation(id, "", "decoder-allocates-without-bound", map[string]any{"input_b64": base64.StdEncoding.EncodeToString(in), "bound": "more than 1.5 GiB resident while decoding an input of a few hundred bytes whose declared lengths are bounded by its size", "stderr": lastLines(x.r.Stderr, 5)})
+				continue
 			}
 			if x.r.Exit == 97 {
 				c.Violation(id, "", "decoder-does-not-return", map[string]any{"input_b64": base64.StdEncoding.EncodeToString(in), "bound": "no decode finished for 20 s (a decode normally takes microseconds)", "stderr": lastLines(x.r.Stderr, 40)})
